@@ -18,7 +18,7 @@ from ..common import Ctx
 
 LEVEL = "exploration"
 SHARDS = {"quick": 16, "thorough": 16}
-FLOOR = {"quick": 40, "thorough": 1500}
+FLOOR = {"quick": 40, "thorough": 800}
 REQUIRED_COUNTERS = ["history_steps", "import_probes", "core_symbol_checks", "histories_with_repetition", "histories_with_spec_change",
                      "nonforce_steps", "core_depth_1", "core_depth_2", "core_depth_3", "core_depth_4", "registry_contract_evals"]
 RULE = ("histories of (client, document, force) actions over 3 clients x 4 documents (declared error sets {404}, {422,500}, {}, {404,409,503}) "
